@@ -188,6 +188,10 @@ NoCandidateWithoutCount == (done /\ ~Admits) => \A j \in 1..Len(out) : Len(out[j
 \* which is harmless only because every bi-rectangle list starts with the same single-borehole field (Search.tla, B_inner).
 BiRectListsStartWithSingle == (done /\ Gen = "birect") => \A j \in 1..Len(out) : Len(out[j]) > 0 => Count(out[j][1]) = 1
 
+\* ... and on this: the outer search of Bisection2D runs over (1 + number of lists) fields but labels them with the descriptors
+\* of list 0, so list 0 must be at least that long
+BiRectFirstListLongEnough == (done /\ Gen = "birect" /\ Len(out) > 0) => (Len(out[1]) = 0 \/ Len(out[1]) >= Len(out) + 1)
+
 Known_F4 == done /\ Gen = "zoned" /\ lot.lx < lot.ly
 
 Emit == done => PrintT(ToJson([gen |-> Gen, lot |-> lot,
